@@ -60,8 +60,13 @@ def history(rnd, rep):
         elif r < 0.9:
             name, ar = rnd.choice(NAMES)
             ops.append(('assert', name, rnd.choice(['a', 'z']), [[Sym('a'), tag + 'dyn']] + [[Sym('a'), 'x']] * (ar - 1) if ar else []))
-        elif r < 0.95:
+        elif r < 0.93:
             ops.append(('clear',))
+        elif r < 0.97:
+            # a script is loaded while a query on one of its predicates is suspended
+            name, ar = rnd.choice([n_ for n_ in NAMES if n_[1] >= 1])
+            ops.append(('query_load', name, [[Sym('v'), i] for i in range(ar)], rnd.randint(1, 2), rnd.choice(['combine', 'combine', 'overwrite']),
+                        script(rnd, tag)))
         else:
             # the engine's own API names are never callable as predicates
             api = rnd.choice(API)
